@@ -1090,7 +1090,7 @@ def box_new(ctx):
     return Ref(c, ())
 
 
-@contract(r'^Pin::<.*>::new_unchecked$|^Pin::<.*>::new$|^Pin::<.*>::as_mut$|^Pin::<.*>::get_mut$|^Pin::<.*>::get_unchecked_mut$|^Pin::<.*>::into_inner$|^<Pin<.*> as (?:std::ops::)?Deref(?:Mut)?>::deref(?:_mut)?$|^<Box<.*> as (?:std::ops::)?Deref(?:Mut)?>::deref(?:_mut)?$|^<Arc<.*> as (?:std::ops::)?Deref>::deref$|^<Arc<.*> as AsRef<.*>>::as_ref$|^<&mut .* as (?:std::ops::)?Deref(?:Mut)?>::deref(?:_mut)?$|^<&.* as (?:std::ops::)?Deref>::deref$|^<.* as (?:std::future::)?IntoFuture>::into_future$|^<.* as (?:std::borrow::)?Borrow(?:Mut)?<.*>>::borrow(?:_mut)?$')
+@contract(r'^Pin::<.*>::new_unchecked$|^Pin::<.*>::new$|^Pin::<.*>::as_mut$|^Pin::<.*>::get_mut$|^Pin::<.*>::get_unchecked_mut$|^Pin::<.*>::into_inner$|^<Pin<.*> as (?:std::ops::)?Deref(?:Mut)?>::deref(?:_mut)?$|^<Box<.*> as (?:std::ops::)?Deref(?:Mut)?>::deref(?:_mut)?$|^<Arc<.*> as (?:std::ops::)?Deref>::deref$|^<Arc<.*> as AsRef<.*>>::as_ref$|^<(?:tokio::sync::|std::sync::)?(?:Owned)?(?:RwLockReadGuard|RwLockWriteGuard|MutexGuard|RwLockMappedWriteGuard)<.*> as (?:std::ops::)?Deref(?:Mut)?>::deref(?:_mut)?$|^<&mut .* as (?:std::ops::)?Deref(?:Mut)?>::deref(?:_mut)?$|^<&.* as (?:std::ops::)?Deref>::deref$|^<.* as (?:std::future::)?IntoFuture>::into_future$|^<.* as (?:std::borrow::)?Borrow(?:Mut)?<.*>>::borrow(?:_mut)?$')
 def pointer_identity(ctx):
     a = ctx.args[0]
     if isinstance(a, Ref):
